@@ -6,10 +6,8 @@ let xh = Conv.hex_of_bytes
 
 let mk = ref maxkeys
 let mi = ref maxids
-let live : st ref = ref []
-let sh : shrink ref = ref shrink_init
-let slog : cmd list ref = ref []
-let shrinking = ref false
+(* the whole server-side state of the model: live dataset, rewrite, shrinklog, shrinking flag *)
+let r : run ref = ref (idle [])
 
 let cmd_str = function
   | CSet (k, i, v) -> Printf.sprintf "set %s %s %s" (xh k) (xh i) (xh v)
@@ -26,9 +24,11 @@ let dump (s : st) =
   | l -> Stdlib.String.concat "," (Stdlib.List.map (fun ((k, i), v) -> Printf.sprintf "%s %s %s" (xh k) (xh i) (xh v)) l)
 
 let gate () =
-  match !sh.sh_pos with
-  | AtKeys -> Printf.sprintf "keys %s -" (xh !sh.sh_nextkey)
-  | AtIds nid -> (match !sh.sh_keys with
+  let sh = !r.r_sh in
+  if not !r.r_shrinking then "idle" else
+  match sh.sh_pos with
+  | AtKeys -> Printf.sprintf "keys %s -" (xh sh.sh_nextkey)
+  | AtIds nid -> (match sh.sh_keys with
                   | [] -> "panic"
                   | k0 :: _ -> Printf.sprintf "ids %s %s" (xh k0) (xh nid))
   | ScanDone -> "scandone"
@@ -53,24 +53,26 @@ let present = function Some _ -> "1" | None -> "0"
 let handle (toks : Stdlib.String.t list) : Stdlib.String.t =
   match toks with
   | ["consts"] -> Printf.sprintf "%d %d" (Conv.int_of_nat maxkeys) (Conv.int_of_nat maxids)
-  | ["new"] -> mk := maxkeys; mi := maxids; live := []; sh := shrink_init; slog := []; shrinking := false; "ok"
-  | ["new"; a; b] -> mk := Conv.nat_of_int (int_of_string a); mi := Conv.nat_of_int (int_of_string b);
-      live := []; sh := shrink_init; slog := []; shrinking := false; "ok"
+  | ["new"] -> mk := maxkeys; mi := maxids; r := idle []; "ok"
+  | ["new"; a; b] -> mk := Conv.nat_of_int (int_of_string a); mi := Conv.nat_of_int (int_of_string b); r := idle []; "ok"
   | "w" :: rest ->
       (match parse_cmd rest with
        | None -> "?bad command"
        | Some c ->
-           let (s', o) = exec !live c in
-           live := s';
-           if !shrinking && logged o then slog := Stdlib.List.append !slog [c];
+           let (_, o) = exec !r.r_live c in
+           r := do_ev !mk !mi !r (W c);
            (match o with Updated -> "updated" | NotUpdated -> "notupdated" | ErrKeyNotFound -> "err:keynotfound"))
-  | ["begin"] -> sh := shrink_init; slog := []; shrinking := true; gate ()
+  (* an AOFSHRINK request: starts a rewrite, or is ignored while one is running *)
+  | ["req"] -> let was = !r.r_shrinking in r := do_ev !mk !mi !r Req; if was then "ignored" else "started " ^ gate ()
+  | ["begin"] -> if !r.r_shrinking then "?already shrinking" else (r := do_ev !mk !mi !r Req; gate ())
   | ["gate"] -> gate ()
-  | ["step"] -> sh := step !mk !mi !live !sh; gate ()
-  | ["out"] -> cmds_str !sh.sh_out
-  | ["log"] -> cmds_str !slog
-  | ["live"] -> dump !live
-  | ["replayed"] -> dump (replay (newfile { r_live = !live; r_sh = !sh; r_log = !slog }) [])
+  | ["step"] -> r := do_ev !mk !mi !r Step; gate ()
+  (* the final section has run and the deferred epilogue cleared flag and log *)
+  | ["end"] -> r := end_rewrite !r; "ok"
+  | ["out"] -> cmds_str !r.r_sh.sh_out
+  | ["log"] -> cmds_str !r.r_log
+  | ["live"] -> dump !r.r_live
+  | ["replayed"] -> dump (replay (newfile !r) [])
   | ["cpoints"] -> Stdlib.String.concat "," (Stdlib.List.map cp_name all_cpoints)
   (* crash <cpname>: directory after a crash there, for the current scenario with everything
      flushed (f_pend = []) and the live file = "the log so far"; reports which files exist and
@@ -81,5 +83,15 @@ let handle (toks : Stdlib.String.t list) : Stdlib.String.t =
            let fi = { f_live = []; f_pend = []; f_snap = []; f_slog = [] } in
            let d = crash_at fi c in
            Printf.sprintf "live=%s bak=%s shrink=%s" (present d.d_live) (present d.d_bak) (present d.d_shrink)
+       | _ -> "?bad crash point")
+  (* leftover <cpname>: files present after the repaired start-up on the directory a crash at
+     <cpname> left, and after a complete second rewrite on it *)
+  | ["leftover"; name] ->
+      (match Stdlib.List.filter (fun c -> cp_name c = name) all_cpoints with
+       | [c] ->
+           let fi = { f_live = []; f_pend = []; f_snap = []; f_slog = [] } in
+           let st d = Printf.sprintf "live=%s bak=%s shrink=%s" (present d.d_live) (present d.d_bak) (present d.d_shrink) in
+           let d1 = startup_dir (crash_at fi c) in
+           st d1 ^ " | " ^ st (rewrite_dir d1 fi)
        | _ -> "?bad crash point")
   | _ -> "?unknown"
